@@ -109,6 +109,78 @@ def _locate_meshes(tier):
     return out
 
 
+def _locate_mixed_cases(tier):
+    """meshes whose main-dimension element groups each use only a SUBSET of the nodes: same-order mixed meshes (two groups) and
+    single-group meshes carrying an orphan node; x placement"""
+    out = []
+    for mix in Z.MIXED_2D + Z.MIXED_3D:
+        for mp in ["identity", "rot"]:
+            out.append({"kind": "locate_mixed", "types": list(mix), "orphan": False, "map": mp})
+    for et in (["TRI3", "QUAD4", "TETRA4"] if tier == "quick" else ["TRI3", "TRI6", "QUAD4", "QUAD9", "TETRA4", "HEXA8", "PRISM6"]):
+        for mp in ["identity", "rot"]:
+            out.append({"kind": "locate_mixed", "types": [et], "orphan": True, "map": mp})
+    return out
+
+
+def _run_locate_mixed(case):
+    types, mp = case["types"], case["map"]
+    d = Z.dim_of(types[0])
+    ets = tuple(types) if len(types) > 1 else types[0]
+    zm = Z.template_2d(ets, k=2) if d == 2 else Z.template_3d(ets, k=(2, 1, 1) if len(types) > 1 else 1)
+    if case["orphan"]:
+        # orphan node FIRST in the numbering, so that group-local and global node indices differ for every node
+        co = np.vstack([np.array([[7.0, 7.0, 0.0]]), zm.coords])
+        zm = Z.ZooMesh(co, {k: v + 1 for k, v in zm.groups.items()}, {}, zm.name + "|orphan0", {k: v + 1 for k, v in zm.boundary.items()})
+    Q, b = _placement(mp, d)
+    zm = zm.mapped(Q, b)
+    mesh = zm.build()
+    coord = zm.coords
+    key = dict(types="+".join(types), orphan=case["orphan"], map=mp, dim=d)
+
+    def field(X):
+        X = np.atleast_2d(X)
+        return np.stack([np.ones(len(X)), X[:, 0], X[:, 1], X[:, 2]], axis=1)
+
+    dofs = field(coord).ravel()
+    scale = max(1.0, float(np.abs(field(coord)).max()))
+    pts, cls = [], []
+    for et, con in zm.groups.items():
+        nv = _nvert(et)
+        for e in range(con.shape[0]):
+            V = coord[con[e, :nv]]
+            pts.append(V.mean(axis=0))
+            cls.append("centroid")
+            pts.append(0.6 * V[0] + 0.3 * V[1] + 0.1 * V.mean(axis=0))
+            cls.append("interior")
+            for n in con[e]:
+                pts.append(coord[n])
+                cls.append("node")
+    P = np.array(pts)
+    out, ncalls, nfound = [], 0, 0
+    bad = {}
+    for batch, chunks in (("mesh", [np.arange(len(P))]), (1, [[i] for i in range(len(P))])):
+        for idx in chunks:
+            ncalls += 1
+            try:
+                got = np.asarray(mesh.Evaluate_dofsValues_at_coordinates(P[idx].copy(), dofs), dtype=float)
+            except Exception as err:
+                bad.setdefault(("evaluate_raises", str(batch), "any"), f"{type(err).__name__}: {str(err)[:160]}")
+                continue
+            want = field(P[idx])
+            for j, i in enumerate(idx):
+                err = float(np.abs(got[j] - want[j]).max()) / scale
+                if not np.isfinite(err) or err > TOL_EVAL:
+                    lost = bool(np.all(got[j] == 0.0))
+                    bad.setdefault(("not_located" if lost else "wrong_value", str(batch), cls[i]),
+                                   f"point {np.round(P[i], 5).tolist()} ({cls[i]}): got {np.round(got[j], 5).tolist()} exact {np.round(want[j], 5).tolist()}")
+                else:
+                    nfound += 1
+    for (check, batch, loc), msg in sorted(bad.items()):
+        out.append(viol(check, f"[{zm.name} placed by '{mp}'] batch={batch}: {msg}", batch=batch, loc=loc, shape="mixed_or_orphan", **key))
+    return {"violations": out, "fingerprint": fp("+".join(types), case["orphan"], mp, nfound), "nontrivial": nfound > 0, "transitions": ncalls,
+            "outcome": "ok" if not out else "violation:" + "+".join(sorted({x["check"] for x in out}))}
+
+
 def cases(tier, seed):
     depth = 2 if tier == "quick" else 3
     out = []
@@ -119,6 +191,7 @@ def cases(tier, seed):
             c["hist"] = h
             out.append(c)
     out += _locate_meshes(tier)
+    out += _locate_mixed_cases(tier)
     return out
 
 
